@@ -58,6 +58,28 @@ def cdistSqCol (rows : List Vec3) (b : Vec3) : SqDists := ⟨rows.map (fun r => 
     this is exactly that statement on the squares (no distance is below a cutoff `c ≤ 0`) -/
 def anyDistLt (ss : SqDists) (c : Rat) : Bool := decide (0 < c) && ss.sq.any (fun d => decide (d < c * c))
 
+/-- a networkx `Graph` built by `add_edges_from`: the edges added so far, in insertion order -/
+structure NxGraph where
+  edges : List (Nat × Nat)
+
+/-- `nx.Graph()` -/
+def nxEmpty : NxGraph := ⟨[]⟩
+/-- `g.add_edges_from(bonds)` -/
+def nxAddEdges (g : NxGraph) (bonds : List (Nat × Nat)) : NxGraph := ⟨g.edges ++ bonds⟩
+
+/-- `list(g.nodes)`: the end points of the edges in first-seen order (dicts keep insertion order) -/
+def nxNodes (g : NxGraph) : List Nat := dedup (g.edges.flatMap (fun e => [e.1, e.2]))
+
+/-- `list(g.neighbors(n))` = `list(g.adj[n])`: the other end points of the edges that mention `n`, in insertion order, without
+    repetition, direction ignored (a self-loop `(n, n)` puts `n` into its own list) -/
+def nxNeighbors (g : NxGraph) (n : Nat) : List Nat :=
+  dedup (g.edges.filterMap (fun e => if e.1 = n then some e.2 else if e.2 = n then some e.1 else none))
+
+/-- `itertools.combinations(xs, 2)`: `(xs[i], xs[j])` for `i < j`, in lexicographic order of `(i, j)` -/
+def combinations2 {α} : List α → List (α × α)
+  | [] => []
+  | x :: xs => xs.map (fun y => (x, y)) ++ combinations2 xs
+
 end Mofun.Generated.Py6
 
 namespace Mofun.Generated.Code6
@@ -286,5 +308,16 @@ def detectBonds (structure_elements : List String) (structure_positions : List V
         pure bonds
         )
     pure bonds
+
+/-- translated from `calc_angles` in mofun/rough_uff.py; `bonds` is the list of the rows of the (n, 2) array; the result is the list of the rows `(a, n, b)` in the order they are appended -/
+def calcAngles (bonds : List (Nat × Nat)) : List (List Nat) :=
+  let g : Py6.NxGraph := Py6.nxEmpty
+  let g : Py6.NxGraph := (Py6.nxAddEdges g bonds)
+  let angles : List (List Nat) := []
+  let angles : List (List Nat) := Py.forFold (Py6.nxNodes g) angles (fun angles n =>
+      let angles : List (List Nat) := (angles ++ (List.map (fun (a, b) => [a, n, b]) (Py6.combinations2 (Py6.nxNeighbors g n))))
+      angles
+      )
+  angles
 
 end Mofun.Generated.Code6
